@@ -4,7 +4,7 @@
 From Coq Require Import Extraction ExtrOcamlBasic.
 From Coq Require Import List NArith ZArith String.
 From Gen Require Import Tables.
-From Model Require Import Base Names Flt F32 Matches Detect Declared.
+From Model Require Import Base Names Flt F32 Matches Detect Declared Cd.
 
 Extraction Language OCaml.
 Separate Extraction
@@ -16,4 +16,5 @@ Separate Extraction
   Matches.unicode_ranges Matches.most_probably_language Matches.multi_byte_usage Matches.coherence
   Matches.languages Matches.suitable_encodings Matches.chaos_percents Matches.coherence_percents
   Detect.from_bytes Detect.probe Detect.make_ctx
-  Declared.any_specified_encoding.
+  Declared.any_specified_encoding
+  Cd.coherence_ratio Cd.merge_coherence_ratios Cd.filter_alt Cd.most_common.
